@@ -6,7 +6,7 @@ from concurrent.futures import ThreadPoolExecutor
 
 VERIF = os.path.dirname(os.path.dirname(os.path.abspath(__file__)))
 REPO = os.environ.get('VERIF_REPO', '/repo')
-COQ = os.path.join(VERIF, 'coq')
+COQ = os.environ.get('VERIF_COQ') or os.path.join(VERIF, 'coq')   # VERIF_COQ: isolated copy of the development (seeded-change runs)
 WORK = os.path.join(VERIF, 'work')
 HARNESS = os.path.join(VERIF, 'harness')
 
@@ -32,6 +32,8 @@ class Lock:
     """coq.lock: builds take it exclusively, evaluations of compiled .vo files take it shared."""
     def __init__(self, name, shared=False):
         os.makedirs(WORK, exist_ok=True)
+        if name == 'coq.lock' and os.environ.get('VERIF_COQ'):
+            name = 'coq_%s.lock' % hashlib.sha1(COQ.encode()).hexdigest()[:10]
         self.path = os.path.join(WORK, name)
         self.shared = shared
 
@@ -149,6 +151,22 @@ def print_assumptions(module, names, run_dir):
         else:
             res[n] = sorted(set(re.findall(r'^([A-Za-z_][A-Za-z0-9_.\']*)\s*:', b, re.M)) - {'Axioms'})
     return res, out
+
+
+def coqchk(modules, timeout=5400):
+    """Re-check the compiled modules (and everything they depend on) with Coq's independent checker."""
+    with Lock('coq.lock', shared=True):
+        rc, out = sh(['timeout', str(timeout), 'coqchk', '-silent', '-o', '-Q', COQ, 'F2G'] + ['F2G.' + m for m in modules], cwd=COQ)
+    res = {'rc': rc, 'modules': modules}
+    m = re.search(r'\* Axioms:(.*?)\n\s*\n\* ', out, re.S)
+    res['axioms'] = sorted(x.strip() for x in (m.group(1).split('\n') if m else []) if x.strip() and x.strip() != '<none>')
+    for key, label in (('type_in_type', 'relying on type-in-type'), ('unsafe_fixpoints', 'relying on unsafe (co)fixpoints'),
+                       ('assumed_positivity', 'whose positivity is assumed')):
+        mm = re.search(re.escape(label) + r':\s*(.*?)\n\s*\n', out + '\n\n', re.S)
+        res[key] = mm.group(1).strip() if mm else '?'
+    if rc != 0:
+        res['log_tail'] = out[-1500:]
+    return res
 
 
 # ---------------------------------------------------------------- harness build
